@@ -1,6 +1,7 @@
 package main
 
 import (
+	"reflect"
 	"go/ast"
 	"go/token"
 	"go/types"
@@ -263,7 +264,20 @@ func c02RecordMaps(c *Check) {
 			}
 			return true
 		})
-		c.Hold("R7", "QueueMetadata."+name, pos, guarded || initd[name], "tryDelivery writes into the record's "+name+" map, but the record persisted at acceptance does not initialise it and the write is not guarded: a message recovered from that first record panics on its first failed recipient (assignment to entry in nil map), is marked broken and never retried")
+		// an initialised but empty map survives the round trip through the file only if the encoder writes it: with an
+		// `omitempty` tag it is left out and decodes as nil
+		if initd[name] && !guarded {
+			if tn, ok := td.FI.Pkg.Types.Scope().Lookup("QueueMetadata").(*types.TypeName); ok {
+				if stt, ok := tn.Type().Underlying().(*types.Struct); ok {
+					for i := 0; i < stt.NumFields(); i++ {
+						if objName(stt.Field(i)) == name && strings.Contains(reflect.StructTag(stt.Tag(i)).Get("json"), "omitempty") {
+							initd[name] = false
+						}
+					}
+				}
+			}
+		}
+		c.Hold("R7", "QueueMetadata."+name, pos, guarded || initd[name], "tryDelivery writes into the record's "+name+" map, but the record persisted at acceptance does not initialise it and the write is not guarded: a message recovered from that first record (an empty map tagged omitempty is not written at all) panics on its first failed recipient (assignment to entry in nil map), is marked broken and never retried")
 	}
 }
 
